@@ -42,3 +42,32 @@ pub open spec fn if_shape(n0: int, ins: Ins, has_else: bool, idx: int, jdx: int)
     &&& has_else ==> idx < jdx < ins.len() && ins[idx].0 == Instruction::PopJumpIfFalse((jdx + 1) as usize) && ins[jdx].0 == Instruction::Jump(ins.len() as usize)
     &&& !has_else ==> ins[idx].0 == Instruction::PopJumpIfFalse(ins.len() as usize)
 }
+/// the loop proper: Iterate at s exits to e, the instruction right after the back-jump (at e - 1) that returns to s;
+/// at e the did-not-iterate flag is stored (for-else only) and the loop is popped
+pub open spec fn loop_core(n0: int, ins: Ins, has_else: bool, s: int, e: int) -> bool {
+    &&& n0 <= s < e - 1 && e < ins.len()
+    &&& ins[s].0 == Instruction::Iterate(e as usize)
+    &&& ins[e - 1].0 == Instruction::Jump(s as usize)
+    &&& !has_else ==> ins[e].0 == Instruction::PopLoop
+    &&& has_else ==> e + 2 < ins.len() && ins[e].0 == Instruction::StoreDidNotIterate && ins[e + 1].0 == Instruction::PopLoop
+}
+pub open spec fn loop_shape(n0: int, ins: Ins, has_else: bool, s: int, e: int) -> bool {
+    &&& loop_core(n0, ins, has_else, s, e)
+    // for-else: skip the else part (jump to the end) unless the loop did not iterate
+    &&& has_else ==> ins[e + 2].0 == Instruction::PopJumpIfFalse(ins.len() as usize)
+}
+/// the start index recorded for the innermost open loop
+pub open spec fn innermost_loop(bs: Seq<ProcessingBody>, n: int) -> Option<usize>
+    decreases n
+{
+    if n <= 0 { None } else { match bs[n - 1] { ProcessingBody::Loop(i) => Some(i), _ => innermost_loop(bs, n - 1) } }
+}
+impl Compiler {
+    /// `processing_bodies.iter().rev().find(|b| matches!(b, ProcessingBody::Loop(..)))`
+    #[verifier::external_body]
+    pub fn get_current_loop(&self) -> (r: Option<&ProcessingBody>)
+        ensures
+            r is Some <==> innermost_loop(self.processing_bodies@, self.processing_bodies@.len() as int) is Some,
+            r is Some ==> *r->Some_0 == ProcessingBody::Loop(innermost_loop(self.processing_bodies@, self.processing_bodies@.len() as int)->Some_0)
+    { unimplemented!() }
+}
